@@ -14,7 +14,7 @@ mkdir -p scratch/sweep
 bad=0
 for id in "${IDS[@]}"; do for s in "${SEEDS[@]}"; do
   t0=$(date +%s)
-  VERIF_SEED=$s ./check "$id" "$TIER" > "scratch/sweep/$id.$TIER.$s.log" 2>&1; rc=$?
+  VERIF_SEED=$s timeout ${SWEEP_TIMEOUT:-3600} ./check "$id" "$TIER" > "scratch/sweep/$id.$TIER.$s.log" 2>&1; rc=$?
   t1=$(date +%s)
   v=$(grep -c '^VIOLATION' "scratch/sweep/$id.$TIER.$s.log")
   k=$(grep -c '^KNOWN-FINDING' "scratch/sweep/$id.$TIER.$s.log")
